@@ -71,6 +71,8 @@ def load_repo(repo):
     os.environ.setdefault("MPLBACKEND", "Agg")
     sys.dont_write_bytecode = True
     sys.path.insert(0, repo)
+    import warnings
+    warnings.filterwarnings("ignore", category=SyntaxWarning)
     with quiet():
         import localcider  # noqa
         from localcider import sequenceParameters, sequencePermutants, plots  # noqa
